@@ -335,6 +335,12 @@ func (doc *Document) AddFamilyWithHusbandAndWife(pointer string, husband, wife *
 func (doc *Document) DeleteNode(node Node) (didDelete bool) {
 	doc.nodes, didDelete = doc.nodes.deleteNode(node)
 
+	if didDelete {
+		// Forget everything that was derived from the removed record.
+		doc.families = nil
+		doc.buildPointerCache()
+	}
+
 	return
 }
 
